@@ -176,10 +176,13 @@ func cmdCheck(args []string) int {
 		for _, t := range bc.Tags {
 			if t == prop {
 				boundeds = append(boundeds, bc)
+				if bc.Pkg != "" {
+					pkgs[bc.Pkg] = true
+				}
 			}
 		}
 	}
-	if len(fcs) == 0 && len(lemmas) == 0 {
+	if len(fcs) == 0 && len(lemmas) == 0 && len(boundeds) == 0 {
 		return fail("no contract carries tag [" + prop + "] (vacuity guard: zero obligations)")
 	}
 	tags := "verif"
